@@ -108,7 +108,7 @@ PROPS["C04"] = dict(
 PROPS["C15"] = dict(
     prefix="c15_",
     overlays=[("lib.rs", "vk_c15.rs"), ("parse", "vk_c15p.rs")],
-    per_harness={r"c15_t_tileset_without_embedded_pixels": dict(mem_gb=12, timeout=1200)},
+    per_harness={r"c15_t_tileset_without_embedded_pixels": dict(mem_gb=14, timeout=2400), r"c15_t_frame_propagates_cel_type_error": dict(mem_gb=12, timeout=1800)},
     bounds="each deciding field over its whole encodable range (u16 / u8 / both pixel-ratio bytes and the depth word with all "
            "other header bytes symbolic); one chunk per frame for the propagation lemmas",
     outside="positions of the feature other than the first chunk of the first frame (dispatch is per chunk and stateless "
@@ -131,7 +131,7 @@ PROPS["C10"] = dict(
 PROPS["C01"] = dict(
     prefix="c01_",
     overlays=[("lib.rs", "vk_c01.rs"), ("parse", "vk_c01p.rs"), ("file", "vk_c01f.rs")],
-    per_harness={r"c01_q_header_.*": dict(mem_gb=14, timeout=1500)},
+    per_harness={r"c01_t_header_.*": dict(mem_gb=14, timeout=2400)},
     bounds="<= 2 entities per chunk (tags, slice keys, external files), names of 0-2 symbolic ASCII bytes, every numeric "
            "attribute over its full encodable range; header with all unused bytes symbolic and 1-2 empty frames; "
            "3 layers for name lookup / iteration",
@@ -143,6 +143,7 @@ PROPS["C01"] = dict(
 PROPS["C11"] = dict(
     prefix="c11_",
     overlays=[("palette", "vk_c11.rs"), ("parse", "vk_c11p.rs")],
+    per_harness={r"c11_._new_palette_from_.*": dict(mem_gb=12, timeout=1500), r"c11_t_legacy_11_.*": dict(mem_gb=12, timeout=2400)},
     bounds="new-format chunks of 2 entries at first index 0 / 254 with symbolic flags, RGBA and a 1-byte name; legacy chunks of "
            "2 packets (2 + 1 colours) at concrete skip pairs (0,3) (1,2) (2,1) (0,0) with symbolic components; all 6-bit values; "
            "2 indexed pixels against a 3-entry sparse palette; both chunk orders for precedence",
@@ -155,7 +156,9 @@ PROPS["C06"] = dict(
     overlays=[("pixel", "vk_c06x.rs"), ("cel", "vk_c06.rs"), ("file", "vk_c02.rs"), ("file", "vk_c06f.rs")],
     per_harness={
         r"c06_._cel_image_.*": dict(mem_gb=12, recursion={r"file::AsepriteFile::write_cel": 2}, timeout=1500),
+        r"c06_._(rgba|gray)_.*": dict(mem_gb=14, timeout=1500),
     },
+    jobs_quick=6,
     bounds="2 pixels per format with all byte values; indexed: sparse 2-entry palette {0,3} with symbolic RGBA, all transparent "
            "indices, both background settings; cel chunk header over all attribute values (1x1 payload); cel image on a 1x1 canvas",
     outside="real deflate streams (identity model of unzip; native replays use a stored-block zlib stream), larger images, "
@@ -166,6 +169,7 @@ PROPS["C06"] = dict(
 PROPS["C08"] = dict(
     prefix="c08_",
     overlays=[("file", "vk_c08.rs")],
+    per_harness={r"c08_q_tileset_images": dict(mem_gb=12), r"c08_._tilemap_raster.*": dict(mem_gb=8), r"c08_t_tilemap_size_in_tiles": dict(timeout=2400)},
     bounds="geometry: canvas and tile size over all of u16 (tile size >= 1), cel offset over all tile-aligned i16 pairs, lookup "
            "coordinates over all of u32 x u32 (stored map 1x1), stored 2x2 map with coordinates < 300; rasteriser: 2x2 canvas, "
            "tiles 1x1 / 2x1, stored map 2x1, symbolic ids, offsets, opacities, mode; tileset images: 2 tiles of 2x1",
@@ -175,15 +179,17 @@ PROPS["C08"] = dict(
 
 PROPS["C05"] = dict(
     prefix="c05_",
-    overlays=[("lib.rs", "vk_c05.rs"), ("file", "vk_c02.rs"), ("file", "vk_c06f.rs"), ("file", "vk_c08.rs"), ("layer", "vk_c09.rs")],
+    overlays=[("lib.rs", "vk_c05.rs"), ("file", "vk_c02.rs"), ("file", "vk_c06f.rs"), ("file", "vk_c08.rs"), ("layer", "vk_c09.rs"), ("palette", "vk_c11.rs")],
     extra_harnesses=dict(
-        quick=["c08_q_tilemap_geometry_and_lookup", "c08_q_tilemap_lookup_2x2", "c08_q_tileset_images",
-               "c06_q_cel_image_linked", "c09_q_visible_n4"],
+        quick=["c08_q_tilemap_geometry_and_lookup", "c08_q_tilemap_lookup_2x2", "c08_q_tileset_images", "c08_q_tilemap_size_in_tiles_fixed_tiles",
+               "c06_q_cel_image_linked", "c09_q_visible_n4", "c11_q_indexed_pixels_need_palette_entries"],
         thorough=["c08_q_tilemap_raster_tile1x1", "c06_q_cel_image_raw", "c06_q_cel_image_absent", "c02_q_fold_l2_k12",
                   "c02_q_raw_cel_2x2_2x1"]),
     per_harness={
         r"c0[26]_._(fold|cel_image)_.*": dict(mem_gb=12, recursion={r"file::AsepriteFile::write_cel": 2}, timeout=1500),
+        r"c08_q_tileset_images": dict(mem_gb=12),
     },
+    jobs_quick=6,
     bounds="declared-vs-supplied sizes: 2x1 image cel / 2-tile tileset / 2x1 tilemap with 1 or 2 elements supplied, tile size 0 in "
            "either dimension, 2 symbolic tile ids against a symbolic tile count; accessor half: the bounds of the re-run C02/C06/C08/C09 harnesses",
     outside="fmt::Debug of the sprite (formatting is stubbed), stack depth of Layer::is_visible for deep nesting, tile sizes and "
@@ -194,9 +200,12 @@ PROPS["C05"] = dict(
 PROPS["C13"] = dict(
     prefix="c13_",
     overlays=[("parse", "vk_c13.rs")],
-    per_harness={r"c13_q_(file_cut_anywhere|missing_last_frame)": dict(mem_gb=14, timeout=1500)},
-    bounds="one frame of two chunks (layer with symbolic attributes, user data) cut at every offset; whole file = 128-byte header "
-           "(unused bytes symbolic) + one empty frame cut at every offset 0..=144; two declared frames with one present",
+    per_harness={r"c13_t_(file_cut_anywhere|missing_last_frame)": dict(mem_gb=14, timeout=2400),
+                 r"c13_._frame_cut_(in_frame_header|in_first_chunk_a|in_second_chunk_a|at_|in_magic|after_old|more).*": dict(mem_gb=12, timeout=1500)},
+    jobs_quick=5, jobs_thorough=4,
+    bounds="one frame of two chunks (layer with symbolic attributes, user data; contents symbolic) cut at 12 (quick) / 18 (thorough) "
+           "concrete offsets covering every read boundary (the in-memory reader over the prefix); the 128-byte header cut at 4 offsets; thorough: whole file = header + "
+           "one empty frame cut at every offset 0..=144 (symbolic), two declared frames with one present",
     outside="files with more chunks / frames (every read goes through the same exact-length primitive), cuts inside a real "
             "zlib stream (the inflater is not encodable; flate2 reports a truncated stream as an I/O error)",
 )
@@ -204,9 +213,13 @@ PROPS["C13"] = dict(
 PROPS["C14"] = dict(
     prefix="c14_",
     overlays=[("reader", "vk_c14.rs"), ("parse", "vk_c13.rs")],
-    bounds="delivery schedules: one byte per call; at most 3 bytes per call with an Interrupted result on every 2nd call; "
-           "hard I/O error of 6 kinds at every byte offset of a 12-byte primitive sequence and of a two-chunk frame; contents symbolic",
-    outside="arbitrary (symbolic) split sizes -- std's read_exact loop treats every short count alike (argument, not verdict); "
+    bounds="delivery schedule one byte per call with symbolic contents (every primitive; take_bytes and a whole frame in the thorough "
+           "tier); one hard I/O error (concrete kind) on the first read of a primitive; the io::Error -> IoError conversion and source() "
+           "for two kinds",
+    outside="Interrupted results (every query in which read_exact's retry loop drops an io::Error runs out of memory under CBMC); "
+            "I/O errors injected at arbitrary offsets / of arbitrary kinds inside a frame or file (std::io::Error's tagged-pointer "
+            "representation makes every query that creates more than one error value run out of memory under CBMC); "
+            "arbitrary (symbolic) split sizes -- std's read_exact loop treats every short count alike (argument, not verdict); "
             "read_file / BufReader / real files (OS I/O is not encodable)",
 )
 
@@ -222,12 +235,12 @@ PROPS["C19"] = dict(
 
 PROPS["C07"] = dict(
     prefix="c07_",
-    per_harness={r"c07_q_bytes_after_last_frame_unread|c01_q_header_.*": dict(mem_gb=14, timeout=1500)},
+    per_harness={r"c07_t_bytes_after_last_frame_unread": dict(mem_gb=14, timeout=2400), r"c06_._(rgba|gray)_.*": dict(mem_gb=14, timeout=1500)},
     overlays=[("parse", "vk_c07.rs"), ("parse", "vk_c11p.rs"), ("parse", "vk_c15p.rs"), ("parse", "vk_c01p.rs"), ("file", "vk_c02.rs"), ("pixel", "vk_c06x.rs")],
     extra_harnesses=dict(
         quick=["c11_q_new_palette_then_legacy", "c11_q_legacy_then_new_palette", "c15_q_header_pixel_ratio_and_depth",
-               "c01_q_header_one_frame", "c02_q_cel_order_201", "c06_q_rgba_raw", "c06_q_rgba_compressed"],
-        thorough=["c02_q_cel_order_120", "c06_q_gray_raw", "c06_t_gray_compressed", "c06_q_indexed_raw", "c06_t_indexed_compressed"]),
+               "c01_q_header_no_frames", "c02_q_cel_order_201", "c06_q_indexed_raw", "c06_t_indexed_compressed"],
+        thorough=["c02_q_cel_order_120", "c06_q_gray_raw", "c06_t_gray_compressed", "c06_q_rgba_raw", "c06_q_rgba_compressed"]),
     bounds="one layer chunk with symbolic attributes: count in old vs new field (old field arbitrary), 3 trailing chunk bytes, "
            "symbolic unused fields; colour profile none/sRGB + three ignorable chunks with symbolic payloads around a layer and its "
            "user data; 16 symbolic bytes after the last frame behind a failing reader; plus the re-run C01/C02/C06/C11/C15 harnesses",
@@ -240,10 +253,10 @@ PROPS["C18"] = dict(
     prefix="c18_",
     overlays=[("util", "vk_c18.rs")],
     features=["utils"],
-    bounds="extrude_border on 1x1, 2x2 (quick), 3x1, 1x3 (thorough) images with symbolic pixels; palette mapper over a 3-entry palette "
-           "with concrete colours at indices 1, 4, 300, symbolic options and alpha, query among the palette colours and one absent colour; "
-           "to_indexed_image on a 2x1 image",
-    outside="arbitrary 24-bit colours as map keys (symbolic hash-map keys), duplicate colours in the palette, larger images",
+    bounds="extrude_border on 1x1, 2x2 (quick), 3x1, 1x3 (thorough) images with symbolic pixels",
+    outside="PARTIAL: PaletteMapper::new / lookup / to_indexed_image are NOT decided -- they iterate one hash map and fill another "
+            "(hashbrown under CBMC: a 3-entry harness did not finish in 15 min, R11); larger images",
+    level_text="Bounded model checking of extrude_border; the palette-mapper half of the property is not decided (see level_note).",
 )
 
 
